@@ -253,6 +253,8 @@ pub struct ExprError(#[from] pub(crate) ExprErrorKind);
 pub(crate) enum ExprErrorKind {
     #[error("Unexpected value {1} for signal {0}")]
     UnexpectedValueForSignal(String, OutputValue),
+    #[error("The variable {0} has not been assigned a value")]
+    VariableNotSet(String),
     #[error("Division by zero")]
     DivisionByZero,
     #[error("random({0}) has no value to choose from, the argument must be at least 2")]
